@@ -4,6 +4,8 @@ import (
 	"fmt"
 	"strings"
 
+	"verif/internal/tsgu"
+
 	"verif/shim/vsched"
 )
 
@@ -87,7 +89,122 @@ func tokenScenario(name string, gw GwCfg, plans ...TunnelPlan) ConcScenario {
 	return ConcScenario{Name: name, Deviation: true, RoundRobin: true, RealCookie: true, Fine: true, Gw: gw, Plans: plans, MaxSteps: 60000}
 }
 
+// c17ConcCheck: every tunnel's handshake is answered for what that tunnel itself sent.
+func c17ConcCheck(sc ConcScenario) func(res *ConcResult, races []RaceReport) (string, []vsched.Violation) {
+	return func(res *ConcResult, races []RaceReport) (string, []vsched.Violation) {
+		var v []vsched.Violation
+		add := func(k, d string) { v = append(v, vsched.Violation{Sig: "C17/" + k + "/" + sc.Name, Detail: d}) }
+		for _, p := range res.X.Panics() {
+			add("panic:"+shortFn(panicSite(p)), p.Value)
+		}
+		var o []string
+		for _, t := range res.Tunnels {
+			hs := t.Plan.Handshake
+			major, minor := hs[8], hs[9]
+			ext := uint16(hs[12]) | uint16(hs[13])<<8
+			who := fmt.Sprintf("tunnel %s (version %d.%d, offers %#x)", t.Plan.ConnID, major, minor, ext)
+			if t.HS == nil {
+				add("handshake-not-answered", who)
+				continue
+			}
+			match := ext&tsgu.ExtAuthPAA != 0 // the gateway of these scenarios enables cookie authentication only
+			o = append(o, fmt.Sprintf("%s:%#x/%d.%d/%#x", t.Plan.ConnID, t.HS.Status, t.HS.Major, t.HS.Minor, t.HS.ExtAuth))
+			switch {
+			case match && t.HS.Status != 0:
+				add("refused-although-capabilities-match", fmt.Sprintf("%s: status %#x", who, t.HS.Status))
+			case !match && t.HS.Status != tsgu.ECapabilityMismatch:
+				add("accepted-although-capabilities-do-not-match", fmt.Sprintf("%s: status %#x", who, t.HS.Status))
+			case match && (t.HS.Major != major || t.HS.Minor != minor):
+				add("version-bytes-not-echoed", fmt.Sprintf("%s: answered %d.%d", who, t.HS.Major, t.HS.Minor))
+			case match && t.HS.ExtAuth != tsgu.ExtAuthPAA:
+				add("advertised-capabilities-differ-from-enabled", fmt.Sprintf("%s: advertised %#x", who, t.HS.ExtAuth))
+			case match && t.SetupFailed != "":
+				add("tunnel-not-served-after-successful-handshake", who+": "+t.SetupFailed)
+			}
+		}
+		return strings.Join(o, " "), v
+	}
+}
+
 func init() {
+	// C17: two handshakes at the same time are each answered for what they themselves offered
+	concExtras["C17"] = func() []concExtra {
+		var out []concExtra
+		type hv struct {
+			major, minor byte
+			ext          uint16
+		}
+		for k, pair := range [][2]hv{{{1, 2, tsgu.ExtAuthPAA}, {7, 9, tsgu.ExtAuthPAA}}, {{1, 0, 0}, {7, 9, tsgu.ExtAuthPAA}}, {{7, 9, tsgu.ExtAuthPAA}, {1, 0, tsgu.ExtAuthSC}}, {{3, 4, tsgu.ExtAuthPAA | tsgu.ExtAuthSC}, {1, 0, 0}}} {
+			for _, kinds := range [][2]string{{"ws", "ws"}, {"legacy", "ws"}} {
+				var plans []TunnelPlan
+				for i, h := range pair {
+					id := []string{"A", "B"}[i]
+					plans = append(plans, TunnelPlan{Kind: kinds[i], ConnID: id, User: "user-" + id, IP: fmt.Sprintf("10.0.%d.1", i+1), Host: "host-" + id + ".example:3389", Script: []string{"data:x", "drop"},
+						Handshake: tsgu.Handshake(h.major, h.minor, 0, h.ext)})
+				}
+				out = append(out, concExtra{ConcScenario{Name: fmt.Sprintf("two-handshakes/%d/%s+%s", k, kinds[0], kinds[1]), Deviation: true, RoundRobin: true, Plans: plans}, [2]int{1, 2}, c17ConcCheck})
+			}
+		}
+		return out
+	}
+	// C10: two writers on one client connection (the relay and the packet loop), judged for panics
+	concExtras["C10"] = func() []concExtra {
+		var out []concExtra
+		for _, kind := range []string{"ws", "legacy"} {
+			for k, script := range [][]string{
+				{"data:abc", "hostsay:h1", "ka", "hostsay:h2", "ka", "close", "idle"},
+				{"hostsay:h1", "data:abc", "hostsay:h2", "bad", "hostsay:h3", "idle"},
+				{"hostsay:h1", "ka", "ping", "hostsay:h2", "drop", "hostsay:h3", "idle"},
+			} {
+				out = append(out, concExtra{ConcScenario{Name: fmt.Sprintf("two-writers/%s/%d", kind, k),
+					Plans: []TunnelPlan{{Kind: kind, ConnID: "A", User: "ua", IP: "10.0.0.1", Host: "ha.example:3389", Script: script, Chunks: [][]byte{[]byte("host-bytes")}}}}, [2]int{1, 2}, panicCheck("C10")})
+			}
+		}
+		return out
+	}
+	// C11: two tunnels end at the same time
+	concExtras["C11"] = func() []concExtra {
+		var out []concExtra
+		for _, kinds := range [][2]string{{"ws", "ws"}, {"ws", "legacy"}, {"legacy", "legacy"}} {
+			for _, ends := range [][2]string{{"drop", "drop"}, {"close", "drop"}, {"bad", "close"}} {
+				var plans []TunnelPlan
+				for i := 0; i < 2; i++ {
+					id := []string{"A", "B"}[i]
+					plans = append(plans, TunnelPlan{Kind: kinds[i], ConnID: id, User: "u" + id, IP: fmt.Sprintf("10.0.%d.1", i+1), Host: "h" + id + ".example:3389", Script: []string{"data:abc", "barrier", ends[i], "idle"}})
+				}
+				sc := ConcScenario{Name: fmt.Sprintf("two-end-together/%s+%s/%s+%s", kinds[0], kinds[1], ends[0], ends[1]), RoundRobin: true, Deviation: true, Plans: plans}
+				out = append(out, concExtra{sc, [2]int{1, 2}, c11Check})
+			}
+		}
+		return out
+	}
+	// C01: a websocket that presents the connection identifier of another, live websocket tunnel is a tunnel of
+	// its own: what it sends without having been authorised reaches nobody's host
+	concExtras["C01"] = func() []concExtra {
+		a := TunnelPlan{Kind: "ws", ConnID: "SAME", User: "bob", IP: "10.0.0.2", Host: "hb.example:3389", Script: []string{"data:[bob-1]", "wait:intruder-done", "ka", "data:[bob-2]", "settle", "drop"}}
+		var out []concExtra
+		for _, stage := range []string{"open", "hs"} {
+			b := TunnelPlan{Kind: "ws", ConnID: "SAME", User: "eve", IP: "10.0.0.9", Host: "hx.example:3389", StopAt: stage, Script: []string{"data:INTRUDER", "settle", "signal:intruder-done", "settle", "data:INTRUDER-2", "settle", "drop"}}
+			out = append(out, concExtra{ConcScenario{Name: "same-connection-id-on-two-websockets/intruder-after-" + stage, Deviation: true, Plans: []TunnelPlan{a, b}}, [2]int{1, 2}, c01SameIDCheck})
+		}
+		return out
+	}
+	// C08: what was received before an outbound channel is re-opened, or before the client leaves, is processed
+	concExtras["C08"] = func() []concExtra {
+		var out []concExtra
+		for _, n := range []int{1, 8, 9, 13} {
+			sc := ConcScenario{Name: fmt.Sprintf("legacy/outbound-channel-re-opened-inside-a-packet/cut=%d", n), Deviation: true,
+				Plans: []TunnelPlan{{Kind: "legacy", ConnID: "A", User: "ua", IP: "10.0.0.1", Host: "ha.example:3389", StopAt: "open",
+					Script: []string{fmt.Sprintf("part1:hs:%d", n), "settle", "reopen-out", "settle", fmt.Sprintf("part2:hs:%d", n), "expect:hs", "send:tc", "expect:tc", "send:ta", "expect:ta", "send:cc", "expect:cc", "data:abc", "settle", "drop"}}}}
+			out = append(out, concExtra{sc, [2]int{1, 2}, c08DeliveredCheck("abc")})
+		}
+		for _, kind := range []string{"ws", "legacy"} {
+			sc := ConcScenario{Name: kind + "/client-leaves-right-after-its-last-packets",
+				Plans: []TunnelPlan{{Kind: kind, ConnID: "A", User: "ua", IP: "10.0.0.1", Host: "ha.example:3389", Script: []string{"data:hello ", "data:world", "drop", "idle"}}}}
+			out = append(out, concExtra{sc, [2]int{1, 2}, c08DeliveredCheck("hello world")})
+		}
+		return out
+	}
 	open := func(hosts ...string) GwCfg {
 		return GwCfg{TokenAuth: true, HostSelection: "roundrobin", Hosts: hosts, VerifyIP: true}
 	}
@@ -153,5 +270,61 @@ func init() {
 		sc.RoundRobin = false
 		out = append(out, concExtra{sc, [2]int{1, 2}, expectFor("C03")})
 		return out
+	}
+}
+
+func panicCheck(prop string) func(sc ConcScenario) func(res *ConcResult, races []RaceReport) (string, []vsched.Violation) {
+	return func(sc ConcScenario) func(res *ConcResult, races []RaceReport) (string, []vsched.Violation) {
+		return func(res *ConcResult, races []RaceReport) (string, []vsched.Violation) {
+			var v []vsched.Violation
+			for _, p := range res.X.Panics() {
+				v = append(v, vsched.Violation{Sig: prop + "/panic:" + shortFn(panicSite(p)) + "/" + sc.Name, Detail: fmt.Sprintf("thread %s: %s", p.Name, p.Value)})
+			}
+			return fmt.Sprintf("panics=%d resps=%v", len(v), res.Tunnels[0].Resps), v
+		}
+	}
+}
+
+func c01SameIDCheck(sc ConcScenario) func(res *ConcResult, races []RaceReport) (string, []vsched.Violation) {
+	return func(res *ConcResult, races []RaceReport) (string, []vsched.Violation) {
+		var v []vsched.Violation
+		add := func(k, d string) { v = append(v, vsched.Violation{Sig: "C01/" + k + "/" + sc.Name, Detail: d}) }
+		for _, p := range res.X.Panics() {
+			add("panic:"+shortFn(panicSite(p)), p.Value)
+		}
+		a, b := res.Tunnels[0], res.Tunnels[1]
+		var all []byte
+		for i := range res.World.Backends {
+			all = append(all, res.World.BackendBytes(i)...)
+		}
+		if strings.Contains(string(all), "INTRUDER") {
+			add("relay-without-authorization", fmt.Sprintf("a host received %q: the second websocket never created a tunnel, it only presented the first one's connection identifier", all))
+		}
+		if len(res.World.Net.Dials) > 1 {
+			add("connection-without-authorization", fmt.Sprintf("%d connections to hosts, only the first websocket was authorised", len(res.World.Net.Dials)))
+		}
+		if a.SetupFailed != "" || !strings.Contains(string(a.BackendGot), "[bob-1]") || !strings.Contains(string(a.BackendGot), "[bob-2]") {
+			add("authorised-tunnel-disturbed-by-a-websocket-with-its-identifier", fmt.Sprintf("setup=%q, its host received %q", a.SetupFailed, a.BackendGot))
+		}
+		return fmt.Sprintf("A=%q host=%q B=%v", a.SetupFailed, a.BackendGot, b.Resps), v
+	}
+}
+
+func c08DeliveredCheck(want string) func(sc ConcScenario) func(res *ConcResult, races []RaceReport) (string, []vsched.Violation) {
+	return func(sc ConcScenario) func(res *ConcResult, races []RaceReport) (string, []vsched.Violation) {
+		return func(res *ConcResult, races []RaceReport) (string, []vsched.Violation) {
+			var v []vsched.Violation
+			add := func(k, d string) { v = append(v, vsched.Violation{Sig: "C08/" + k + "/" + sc.Name, Detail: d}) }
+			for _, p := range res.X.Panics() {
+				add("panic:"+shortFn(panicSite(p)), p.Value)
+			}
+			t := res.Tunnels[0]
+			if t.SetupFailed != "" {
+				add("packets-not-processed", "setup: "+t.SetupFailed)
+			} else if string(t.BackendGot) != want {
+				add("complete-packets-not-processed", fmt.Sprintf("the client sent DATA packets carrying %q (complete, in order) before it left; its host received %q", want, t.BackendGot))
+			}
+			return fmt.Sprintf("setup=%q host=%q", t.SetupFailed, t.BackendGot), v
+		}
 	}
 }
